@@ -166,6 +166,18 @@ def cases(draw):
         if kind == "rename":
             value = ("RenamedTy%d" if site[0] in ("type", "type-rename") else "renamed_m%d") % counter
         placements.append({"site": list(site), "kind": kind, "value": value, "formula": f})
+    # the same directive twice on one inheritance chain (or stacked on one item) under conditions no backend satisfies together:
+    # each must still take effect where its own condition holds
+    msites = [s_ for s_ in sites if s_[0] == "method"]
+    if msites and draw(st.integers(0, 2)) == 0:
+        ms = draw(st.sampled_from(msites))
+        chain = [("module", ms[1]), ("type", ms[1], ms[2]), ("impl",) + tuple(ms[1:4]), ("method",) + tuple(ms[1:5])]
+        if not any(c in disabled_chain for c in chain):
+            b1, b2 = draw(st.permutations(["c", "cpp", "js", "dart", "kotlin", "nanobind"]))[:2]
+            upper = ("impl",) + tuple(ms[1:4]) if draw(st.booleans()) else ("method",) + tuple(ms[1:5])
+            placements.append({"site": list(upper), "kind": "disable", "value": None, "formula": ("name", b1)})
+            placements.append({"site": list(ms), "kind": "disable", "value": None, "formula": ("name", b2)})
+            disabled_chain.add(("method",) + tuple(ms[1:5]))
     return prog, placements
 
 
